@@ -159,5 +159,49 @@ def bullyElectedListed (key : α → Nat) (self : α) (candidates : List α) (cl
   | some r => if r ∈ candidates then bullyElected key self candidates (some r) else self
   | none => self
 
+/-! ### the second attempt as a whole -/
+
+/-- what the relayer does after the failure, as far as a scenario can observe it -/
+inductive Outcome (α : Type) where
+  | ended                    -- the session ends with an error
+  | idle                     -- waits for a start message; none came
+  | follows (c : α)          -- answers `c`'s initiate with ready and runs the process with `c`'s start params
+  | announces (S : List α)   -- coordinates the new attempt itself and announces the subset `S`
+  | neverReady               -- coordinates the new attempt itself; the ready messages ran out before `Ready`
+deriving Repr, DecidableEq
+
+structure Second (α : Type) where
+  election : Option (List α)   -- the candidates in election order, when a bully election was started
+  outcome  : Outcome α
+deriving Repr, DecidableEq
+
+/-- `Execute` after the first attempt failed with `e`, up to the second attempt's start: `elect` is the election rule
+    (`bullyElected` as written, `bullyElectedListed` as intended), `claimant` a peer that announces itself coordinator /
+    sends the replacement start, `arrivals` the senders of ready messages if this relayer coordinates. -/
+def secondAttempt (elect : (α → Nat) → α → List α → Option α → α) (key : α → Nat) (self : α) (t : Nat)
+    (holders : List α) (e : Err α) (retryable : Bool) (claimant : Option α) (arrivals : List α) : Second α :=
+  match afterFailure retryable e with
+  | .giveUp => ⟨none, .ended⟩
+  | .waitStart => ⟨none, match claimant with | some r => .follows r | none => .idle⟩
+  | .retry ex =>
+    let cands := nextCandidates holders ex
+    let elected := elect key self cands claimant
+    ⟨some (sortDesc key cands),
+      if elected = self then
+        match initiate key ⟨self, holders, t, ex⟩ arrivals with
+        | some (_, S) => .announces S
+        | none => .neverReady
+      else .follows elected⟩
+
+/-! ### the code as found (before the repair), kept to state the defect -/
+
+/-- the type switch of the as-found `handleError`: only the outermost value is looked at -/
+def classifyAsFound : Err α → Class α
+  | .coord p => .coord p
+  | .comm => .comm
+  | .tss cs d => .tss cs d
+  | .subset => .subset
+  | _ => .unknown
+
 end
 end Sygma.C11
